@@ -97,7 +97,7 @@ def BACKOFF_LIMIT : Nat := 300
 /-! ## `NameServer::send_inner` -/
 
 def stepAt (script : List Step) (pos : Nat) : Step :=
-  script.getD (min pos (script.length - 1)) ⟨.io, 0⟩
+  script.getD (min pos (script.length - 1)) ⟨.io, 1⟩
 
 inductive Choice
   | reused (p : Proto)
